@@ -250,6 +250,34 @@ func runC13(c *ctx) {
 		emitC13(c, 'S', randBytes(r, r.Intn(14), srvAlpha))
 		emitC13(c, 'S', "M A1 A2 "+randBytes(r, r.Intn(24), "0123456789 -"))
 	}
+	// 2b. drop lists at the boundaries of the carry: for every carry count 1..8 (and 0, 9) and direction, drop strings whose
+	// digits sum to just below / exactly / just above the carry, of every length up to 10 (one more digit than a board is wide),
+	// for the PTN parser, and the corresponding wire spellings for the server parser
+	for cnt := 0; cnt <= 9; cnt++ {
+		for _, dir := range []string{"<", ">", "+", "-"} {
+			head := fmt.Sprintf("%da1%s", cnt, dir)
+			if cnt == 1 && r.Intn(2) == 0 {
+				head = "a1" + dir
+			}
+			var ds []string
+			for n := 0; n <= 10; n++ {
+				ds = append(ds, strings.Repeat("1", n)) // 8a1>111111111: eight drops use the carry up, a ninth follows
+			}
+			for k := 0; k < 6; k++ { // random compositions around the carry, plus one extra digit
+				s, sum := "", 0
+				for sum < cnt+r.Intn(3)-1 && len(s) < 10 {
+					d := 1 + r.Intn(3)
+					s += fmt.Sprint(d)
+					sum += d
+				}
+				ds = append(ds, s, s+fmt.Sprint(r.Intn(10)), s+"0")
+			}
+			for _, d := range ds {
+				emitC13(c, 'M', head+d)
+				emitC13(c, 'S', "M A1 A"+fmt.Sprint(1+len(d))+" "+strings.Join(strings.Split(d, ""), " "))
+			}
+		}
+	}
 	// 3. TPS
 	var tpsTexts []string
 	for g := 0; g < 12*c.scale; g++ {
